@@ -358,7 +358,11 @@ def _run_check(prop, tier, seed, replay=None):
     # 1. tie A
     b, changed = regenerate(ctx)
     relevant = set(getattr(mod, "KERNEL_FILES", []))
+    degraded = [x for x in b if x["kind"] == "translator-degraded"]
+    b = [x for x in b if x["kind"] != "translator-degraded"]
     broken += [x for x in b if not relevant or x.get("file") in relevant or x["kind"] != "translator"]
+    for x in degraded:
+        ctx.log(f"NOTE tie A degraded to tie B for {x.get('member')} ({x['file']}): {x['detail'][:160]}")
     # 2. build driver (needed by correspondences)
     rc, out = lake_build(["gsvdriver"], ctx)
     for _ in range(int(os.environ.get("GSV_DRIVER_RETRIES", "0"))):   # development aid: another builder may be mid-edit
@@ -404,10 +408,13 @@ def _run_check(prop, tier, seed, replay=None):
             violations.append({"key": "correspondence:" + d.get("what", ""), "what": d.get("what", ""), "case": d})
         broken.append({"kind": "correspondence", "name": d.get("what", "model/implementation disagreement"), "case": d})
     ctx.log(f"correspondence: {corr.get('evaluations', 0)} cases, {len(corr.get('disagreements', []))} disagreements")
+    if degraded and corr.get("evaluations", 0) == 0:
+        broken.append({"kind": "translator", "detail": "tie A degraded and the correspondence evaluated nothing: nothing ties the model to the code: "
+                       + "; ".join(x["detail"][:120] for x in degraded)})
     # 5. search (always a light one; deeper when something is broken)
     srch = {"evaluations": 0, "violations": [], "summary": ""}
     try:
-        srch = mod.search(ctx, deep=bool(broken))
+        srch = mod.search(ctx, deep=bool(broken or degraded))
     except Exception as e:
         traceback.print_exc()
         ctx.log("search raised", e)
@@ -456,6 +463,10 @@ def _run_check(prop, tier, seed, replay=None):
         "support": {"search_evaluations": srch.get("evaluations", 0), "search_summary": srch.get("summary", "")},
         "generated_changed": changed,
     }
+    if degraded:
+        # members written in constructs the formula translator does not cover: their generated definitions are those of the last
+        # supported revision; for them the tie to the current code is the correspondence (tie B) alone
+        cov["degraded_ties"] = [{"member": x.get("member"), "file": x["file"], "detail": x["detail"][:300]} for x in degraded]
     if getattr(ctx, "leanchecker", None):
         cov["leanchecker"] = ctx.leanchecker
     if informative is not None:
